@@ -1,6 +1,7 @@
 import Driver.OpsBits
 import Driver.OpsTemplate
 import Driver.OpsIeee
+import Driver.OpsCodec
 /-
   bvp_lean — line-protocol driver: one operation per input line, one canonical
   result line per operation, computed by the *model*.  Each model area has its own
@@ -13,6 +14,7 @@ structure St where
   bits : BitsSt := {}
   tm : TmplSt := {}
   ieee : IeeeSt := {}
+  codec : CodecSt := {}
 
 def step (st : St) (line : String) : St × String :=
   let toks := (line.trimAscii.toString.splitOn " ").filter (· ≠ "")
@@ -25,6 +27,9 @@ def step (st : St) (line : String) : St × String :=
   | none =>
   match stepIeee st.ieee toks with
   | some (s, o) => ({ st with ieee := s }, o)
+  | none =>
+  match stepCodec st.tm st.codec toks with
+  | some (t, c, o) => ({ st with tm := t, codec := c }, o)
   | none => (st, "bad-op")
 
 partial def loop (h : IO.FS.Stream) (out : IO.FS.Stream) (st : St) : IO Unit := do
